@@ -2,6 +2,7 @@ import XalanModel.C09.ChainProofs
 import XalanModel.Generated.C10_Priority
 import XalanModel.Generated.C09_KeyTable
 import XalanModel.Generated.C09_StepPredicate
+import XalanModel.Generated.C09_FromRoot
 /-!
 # C09 — consumers that pre-filter candidate nodes by target data
 
